@@ -21,17 +21,19 @@ theorem flushPlain_flatten (acc : Str) : (flushPlain acc).flatten = acc.reverse 
   · next h => simp [h]
   · rw [splitSep_flatten]; simp
 
-theorem chunksAux_flatten (m : Option Char) (acc s : Str) : (chunksAux m acc s).flatten = acc.reverse ++ s := by
+theorem chunksAux_flatten (m : Nat) (acc s : Str) : (chunksAux m acc s).flatten = acc.reverse ++ s := by
   induction s generalizing m acc with
   | nil => cases m <;> simp [chunksAux, flushPlain_flatten]
   | cons c cs ih =>
     cases m with
-    | none =>
+    | zero =>
       simp only [chunksAux]
       split
-      · rw [List.flatten_append, flushPlain_flatten, ih]; simp
+      · split
+        · rw [List.flatten_append, flushPlain_flatten, ih]; simp
+        · rw [ih]; simp
       · rw [ih]; simp
-    | some q =>
+    | succ n =>
       simp only [chunksAux]
       split
       · simp [ih]
